@@ -4,16 +4,18 @@ spec/Suppress.tla (written from man/manual.md, chapter Suppressions) defines Mat
 where the manual is silent) and Reported(F, S).  The check
   1. lets TLC write the skeleton project, the palette of planted findings, the table of suppression forms, the
      compatible form sets (the case space) and the (suppression, finding) strata of the unit level   (step gen),
-  2. picks cases from that space with the seed (all singletons, pairs and triples sampled; thorough: sampled from the
-     completely enumerated space), lets TLC check every pick against the space and render it into one tiny project per
-     surface form: --suppress=, --suppressions-list=, --suppress-xml=, inline comments                (step render),
+  2. picks cases from that space with the seed (quick: all singletons, 330 pairs, 330 triples, two surface forms each;
+     thorough: all singletons and pairs, triples sampled from the completely enumerated space, all surface forms), lets
+     TLC check every pick against the space and render it into one tiny project per surface form: --suppress=,
+     --suppressions-list=, --suppress-xml=, inline comments                                              (step render),
   3. runs the real binary on every rendered project (observation = printed finding keys), the unsuppressed baseline
      projects with --xml, and harness/suppress_harness.cpp on the unit strata,
   4. lets TLC judge: observed = Reported(F, S) on every decided finding of every run, equality of the surface forms of
      a case, baseline = palette, SuppressionList::isSuppressed = Match on every decided unit pair      (step judge),
   5. lets TLC check the laws of the specification                                                      (step laws).
 Python samples, renders text into files, runs processes and parses the --template / --xml output; every verdict and
-every deviation class is TLC's.
+every deviation class is TLC's.  The binary runs are started for a fixed time budget (the machine is shared): the
+evidence states how many of the planned cases were run.
 """
 import concurrent.futures
 import hashlib
@@ -52,7 +54,6 @@ META = {
 
 WORKERS = 6            # parallel cppcheck runs (the machine is shared)
 PRINT_CAP = 12
-STYLE_IDS = ("unreadVariable", "constVariablePointer", "unassignedVariable")
 
 
 # ------------------------------------------------------------------ TLC steps
@@ -332,13 +333,16 @@ def strip_obs(obs):
 # ------------------------------------------------------------------ violations
 def bad_to_violations(bad, obs, rendered):
     viol = []
+    saved = {}
     for b in bad:
         if b["class"] == "follows-from-run":
             continue                                   # the runs of that case are reported themselves
         c = obs[b["case"] - 1]
         payload = {"pick": b["pick"], "verdict": b, "rendered": rendered[b["case"] - 1]["runs"], "observed": c["runs"]}
         key = b["class"]
-        p = vlib.save_replay(PID, re.sub(r"[^A-Za-z0-9_.-]", "_", key)[:80] + "-" + vlib.digest(b["pick"]), payload)
+        if len(saved.setdefault(key, [])) < 5:         # at most five stored inputs per class
+            saved[key].append(vlib.save_replay(PID, re.sub(r"[^A-Za-z0-9_.-]", "_", key)[:80] + "-" + vlib.digest(b["pick"]), payload))
+        p = saved[key][0]
         if b["kind"] == "run":
             r = c["runs"][b["run"] - 1]
             what = "forms %s via %s: must be reported but missing %s; must be hidden but shown %s; unexpected %s; rc=%s %s; cppcheck %s" % (
@@ -438,6 +442,21 @@ def main(tier, seed, replay=None):
             b["case"] += off
         bad += j["bad"]
         verdicts = [x + y for x, y in zip(verdicts, j["verdicts"])]
+    # a deviation that is not a known finding is reported only if an immediate re-run of the case reproduces it
+    known_keys = vlib.known_findings(PID)
+    suspects = sorted(set(b["case"] for b in bad if b["class"] not in known_keys))[:60]
+    not_reproduced = 0
+    if suspects:
+        again = observe(meta, [all_rendered[i - 1] for i in suspects], pool)
+        j2 = tlc_judge(work, strip_obs(again), [], ucases, None, "rerun")
+        confirmed = set((suspects[b["case"] - 1], b["run"], b["class"]) for b in j2["bad"])
+        keep = []
+        for b in bad:
+            if b["case"] in suspects and b["class"] not in known_keys and (b["case"], b["run"], b["class"]) not in confirmed:
+                not_reproduced += 1
+                continue
+            keep.append(b)
+        bad = keep
     phase["judge"] = time.time() - t_runs - phase["runs"]
     uj, ucalls = unit_f.result()
     unit, ubad = uj["unit"], uj["ubad"]
@@ -448,7 +467,6 @@ def main(tier, seed, replay=None):
 
     violations = bad_to_violations(bad, all_obs, all_rendered) + unit_violations(ubad)
     # every class is reported once; of the classes that are not known findings only the first PRINT_CAP are printed
-    known_keys = vlib.known_findings(PID)
     shown, unknown = [], set()
     for v in violations:
         if v["key"] not in known_keys:
@@ -481,7 +499,7 @@ def main(tier, seed, replay=None):
            "finding_verdicts": {"must_report": verdicts[0], "must_hide": verdicts[1], "total": verdicts[2], "open": verdicts[2] - verdicts[0] - verdicts[1]},
            "unit": {"suppressions": unit[0], "bad_pairs": unit[1], "yes": unit[2], "no": unit[3], "open": unit[4], "isSuppressed_calls": ucalls},
            "laws_checked": laws, "bad_runs": len([b for b in bad if b["kind"] == "run"]), "bad_surface": len([b for b in bad if b["kind"] == "surface"]),
-           "deviation_classes": classes, "known_findings_hit": known, "phase_s": {k: round(v, 1) for k, v in phase.items()},
+           "deviation_classes": classes, "known_findings_hit": known, "not_reproduced_on_rerun": not_reproduced, "phase_s": {k: round(v, 1) for k, v in phase.items()},
            "samples": [sample(all_obs[0]), sample(all_obs[len(all_obs) // 2]), sample(all_obs[-1])]}
     vlib.write_evidence(PID, tier, seed, "exploration", cov, time.time() - t0, violations=new,
                         assumptions=["findings are read from the --template output on stderr (baseline: --xml)",
